@@ -61,10 +61,11 @@ const (
 	spUpDown           // ../<dir>/relative (leave the directory and come back)
 	spAbsDetour        // absolute URL whose path makes a detour (/dir/x/../file.json)
 	spAbsQuery         // absolute file: URL carrying a query (irrelevant for a local file)
+	spRelQuery         // relative reference to a local file carrying a query
 	nSpellings
 )
 
-var spellNames = []string{"short", "./relative", "root-relative", "absolute", "x/../detour", "own-file-name", "../dir/relative", "absolute-with-detour", "absolute-with-query"}
+var spellNames = []string{"short", "./relative", "root-relative", "absolute", "x/../detour", "own-file-name", "../dir/relative", "absolute-with-detour", "absolute-with-query", "relative-with-query"}
 
 type gedge struct {
 	From, To, Form, Spell int
@@ -304,6 +305,10 @@ func spell(src, dst, frag string, sp int) string {
 	case spOwnFile:
 		if sameSite {
 			return rel() + hash
+		}
+	case spRelQuery:
+		if sameSite && du.Scheme == "file" && !sameDoc {
+			return rel() + "?raw=true" + hash
 		}
 	case spAbsQuery:
 		if du.Scheme == "file" {
